@@ -12,10 +12,11 @@ for line in log:
     if not ok:
         print('NOT CONFIRMED', pid, x, suite, dwith, dwithout); continue
     os.makedirs(dstdir, exist_ok=True)
-    for f in ['patch.diff', 'demo.rs', 'notes.md']:
-        if os.path.exists(f'{src}/{f}'): shutil.copy(f'{src}/{f}', f'{dstdir}/{f}')
     meta_path = f'{dstdir}/meta.json'
     meta = json.load(open(meta_path)) if os.path.exists(meta_path) else {}
+    for f in ['patch.diff', 'demo.rs', 'notes.md']:
+        if f == 'patch.diff' and 'rebased' in meta: continue  # hand-rebased patch: keep it
+        if os.path.exists(f'{src}/{f}'): shutil.copy(f'{src}/{f}', f'{dstdir}/{f}')
     notes = open(f'{src}/notes.md').read() if os.path.exists(f'{src}/notes.md') else ''
     meta.update({
         'property': pid, 'variant': x,
